@@ -138,7 +138,9 @@ func (p *Parser) parseNode(node, parent *yaml.Node, group *Group, offsetLine, of
 		}
 		return groups
 	case yaml.ScalarNode:
-		if strings.Count(node.Value, "\n") > 1 && node.Value != strings.Join(contentLines, "\n") && node.Line < len(contentLines) {
+		// Only literal block scalars keep every line of the nested document on its own line of the file,
+		// for any other style (quoted with escaped line breaks, folded) line numbers cannot be mapped back.
+		if node.Style&yaml.LiteralStyle != 0 && strings.Count(node.Value, "\n") > 1 && node.Value != strings.Join(contentLines, "\n") && node.Line < len(contentLines) {
 			var n yaml.Node
 			// FIXME there must be a better way.
 			// If we have YAML inside YAML:
